@@ -273,7 +273,7 @@ Definition finish (lk : left_kind) (pattern : str) (hostname : option str) (fie1
   let hn0 := match lk with KDouble => true | _ => false end in
   let cr := head_is SLASH pattern && last_is SLASH pattern && Nat.ltb 1 (length pattern) in
   let filter := if Nat.ltb fis3 fie1
-                then Some (lower_str (take (fie1 - fis3) (drop fis3 pattern))) else None in
+                then Some ((if cr then lower_regex_body else lower_str) (take (fie1 - fis3) (drop fis3 pattern))) else None in
   let rx2 := match filter with Some f => check_is_regex f | None => rx1 end in
   let hostname' :=
     match hostname with
@@ -376,7 +376,7 @@ Lemma finish_some lk pattern hostname fis3 la3 ra1 rx1 wild http https ws :
      pf_filter := Some (drop fis3 (lower_str pattern)); pf_hostname := host_of lk hostname;
      pf_http := http; pf_https := https; pf_ws := ws |}.
 Proof.
-  intros L Hcr. unfold finish. cbv zeta. rewrite Hcr.
+  intros L Hcr. unfold finish. cbv zeta. rewrite Hcr. cbv iota.
   replace (Nat.ltb fis3 (length pattern)) with true by lia.
   rewrite take_all_drop, lower_drop. reflexivity.
 Qed.
